@@ -80,6 +80,38 @@ mod probes {
                     }
                 }};
             }
+            // ---- C17: try_ / panicking twins whose callback itself allocates from the same arena
+            {
+                let inner = $r.range(1, 9) as usize;
+                let mut outs: Vec<(String, usize, usize)> = vec![];   // (entry point, offset of the result in its chunk, allocated afterwards)
+                let mut rec = |name: &str, b: &B, p: usize| {
+                    let st = b.stats();
+                    let c = st.small_to_big().find(|c| (c.chunk_start().as_ptr() as usize) <= p && p <= c.chunk_end().as_ptr() as usize).map_or(0, |c| c.chunk_start().as_ptr() as usize);
+                    outs.push((name.to_string(), p - c, st.allocated()));
+                };
+                match $r.below(4) {
+                    0 => {
+                        { let b = make(); let x = b.alloc_with(|| { b.alloc_slice_fill(inner, 1u8); 7u64 }); let p = &*x as *const u64 as usize; core::mem::forget(x); rec("alloc_with", &b, p); }
+                        { let b = make(); let x = b.try_alloc_with(|| { b.alloc_slice_fill(inner, 1u8); 7u64 }).unwrap(); let p = &*x as *const u64 as usize; core::mem::forget(x); rec("try_alloc_with", &b, p); }
+                    }
+                    1 => {
+                        { let b = make(); let x = b.alloc_slice_fill_with(3, || { b.alloc_slice_fill(inner, 1u8); 7u32 }); let p = x.as_ptr() as usize; core::mem::forget(x); rec("alloc_slice_fill_with", &b, p); }
+                        { let b = make(); let x = b.try_alloc_slice_fill_with(3, || { b.alloc_slice_fill(inner, 1u8); 7u32 }).unwrap(); let p = x.as_ptr() as usize; core::mem::forget(x); rec("try_alloc_slice_fill_with", &b, p); }
+                    }
+                    2 => {
+                        { let b = make(); let x = b.alloc_iter((0..3u32).map(|i| { b.alloc_slice_fill(inner, 1u8); i })); let p = x.as_ptr() as usize; core::mem::forget(x); rec("alloc_iter", &b, p); }
+                        { let b = make(); let x = b.try_alloc_iter((0..3u32).map(|i| { b.alloc_slice_fill(inner, 1u8); i })).unwrap(); let p = x.as_ptr() as usize; core::mem::forget(x); rec("try_alloc_iter", &b, p); }
+                    }
+                    _ => {
+                        { let b = make(); let x = b.alloc_default::<u64>(); let p = &*x as *const u64 as usize; core::mem::forget(x); rec("alloc_default", &b, p); }
+                        { let b = make(); let x = b.try_alloc_default::<u64>().unwrap(); let p = &*x as *const u64 as usize; core::mem::forget(x); rec("try_alloc_default", &b, p); }
+                    }
+                }
+                if outs.len() == 2 && (outs[0].1 != outs[1].1 || outs[0].2 != outs[1].2) {
+                    $notes.push(format!("entry-points-differ: {} gives (offset {}, allocated {}), {} gives (offset {}, allocated {}) when the callback allocates {inner} bytes from the same arena ({tag}, fill {fill}, odd {odd})",
+                        outs[0].0, outs[0].1, outs[0].2, outs[1].0, outs[1].1, outs[1].2));
+                }
+            }
             let ok = $r.coin(2, 3);
             match $r.below(5) {
                 0 => twins!(u8, u64, if ok { Ok(7u8) } else { Err(9u64) }),
